@@ -126,6 +126,25 @@ def run_case(case):
                 if not err <= tol:
                     probs.append(('density-differs:perturbed:same-finder-on-a-differently-distributed-grid',
                                   'finder reused on a grid whose radial block starts at %d (first grid: %d) on rank %d: max error %.3g (tol %.3g)' % (int(l2.starts[0]), r0, r, err, tol)))
+        # a further finder in the same process for a velocity grid with the same number of points and the same vMin but another
+        # vMax (anything remembered per process must be keyed by the whole v space)
+        f3, c3, t3 = setupCylindricalGrid(layout='v_parallel', npts=list(npts), comm=comm, eps=0.0, splineDegrees=[3, 3, 3, case['vdeg']], vMin=-6.1, vMax=4.3, **ops.GENERIC)
+        eta3 = f3.eta_grid
+        dens3 = DensityFinder(6, f3.getSpline(3), eta3, c3)
+        S3 = refspline.RefSpace(f3.getSpline(3))
+        w3 = np.array([float(x) for x in S3.weights_exact()])
+        l3 = f3.getLayout('v_parallel')
+        gi3 = sim.global_index_arrays(l3)
+        F3 = f3.getAllData() * (1 + 0.3 * np.sin(1.0 + gi3[0] * 1.3 + gi3[1] * 0.7 + gi3[2] * 2.1 + gi3[3] * 0.9))
+        f3.getAllData()[:] = F3
+        rho.getAllData()[:] = poison
+        n_eval += 1
+        dens3.getRho(f3, rho)
+        want = np.einsum('ijkl,l->ijk', F3, w3)
+        tol = 64 * EPS * S3.cond_inf() * (S3.d + 1) * float(eta3[3][-1] - eta3[3][0]) * max(1e-300, np.abs(F3).max())
+        err = np.abs(rho.getAllData().real - want).max() if not np.isnan(rho.getAllData().real).any() else np.inf
+        if not err <= tol:
+            probs.append(('density-differs:full:second-velocity-grid-in-the-same-process', 'finder for v in [-6.1, 4.3] built after one for [-6.1, vMax default] on rank %d: max error %.3g (tol %.3g)' % (r, err, tol)))
         return probs, n_eval, r0
     try:
         res, _ = sim.run_world(grid, fn)
